@@ -88,6 +88,7 @@ func (e *Engine) boolInput(t *Term) *Term { return e.st.Eq(t, e.st.Const(1, 1)) 
 func init() {
 	intrinsics = map[string]intrinsic{}
 	pkgIntrinsics = map[string]intrinsic{}
+	registerBridge()
 
 	// ------------------------------------------------------------ verifrt
 	mkInt := func(kind string, w int) intrinsic {
